@@ -445,18 +445,18 @@ def _arg_features(view: dict, d: dict, rule: str) -> str:
     feats = set()
     decl = {a["name"]: a for a in view["shape"]["args"]}
 
-    def walk(sels, top):
+    def walk(sels, top, optype):
         for s in sels:
             for a in s["args"]:
                 if pred is None or _value_has(a["value"], pred):
-                    if top and s["name"] == "f" and d["root"] == "query" and a["name"] in decl:
-                        feats.add("arg:%s:%s" % (decl[a["name"]]["base"], decl[a["name"]]["wrap"]))
+                    if top and s["name"] == "f" and optype == "query" and a["name"] in decl:
+                        feats.add("arg:%s" % decl[a["name"]]["base"])      # the declared named type; wrappers do not matter for the class
                     else:
                         feats.add("arg:%s.%s" % (s["name"], a["name"]))
-            walk(s["sels"], False)
+            walk(s["sels"], False, optype)
 
     for df in d["doc"]["defs"]:
-        walk(df["sels"], True)
+        walk(df["sels"], True, df["optype"])
     return "+".join(sorted(feats)) or "-"
 
 
